@@ -10,3 +10,61 @@ struct lt_dlsymlist_ { const char *name; void *address; };
 extern const struct lt_dlsymlist_ lt__PROGRAM__LTX_preloaded_symbols[];
 const struct lt_dlsymlist_ lt__PROGRAM__LTX_preloaded_symbols[] = { {"@PROGRAM@", nullptr}, {nullptr, nullptr} };
 }
+
+// ---------------------------------------------------------------------------------------------------------------------
+// C57: walk every readable entry of every rock cache_dir index through the public Ipc::StoreMap API (DESIGN.md §4 C57)
+#include "sim.h"
+#include "SquidConfig.h"
+#include "fs/rock/RockSwapDir.h"
+#include "ipc/StoreMap.h"
+#include "store/Disks.h"
+#include "store/Disk.h"
+#include <set>
+
+extern "C" void verif_rock_walk(const char *label)
+{
+    for (size_t i = 0; i < Config.cacheSwap.n_configured; ++i) {
+        const auto *dir = dynamic_cast<const Rock::SwapDir *>(Config.cacheSwap.swapDirs[i].getRaw());
+        if (!dir)
+            continue;
+        Ipc::StoreMap map(dir->inodeMapPath());
+        const int limit = map.entryLimit();
+        const int sliceLimit = map.sliceLimit();
+        std::set<int> used;       // slices reachable from some readable entry
+        int readable = 0, bad = 0;
+        for (int fileno = 0; fileno < limit; ++fileno) {
+            const auto &peek = map.peekAtEntry(fileno);
+            if (peek.empty() || peek.writing())
+                continue;
+            uint64_t key[2] = {peek.key[0], peek.key[1]};
+            const auto *anchor = map.openForReadingAt(fileno, reinterpret_cast<const cache_key *>(key));
+            if (!anchor)
+                continue;
+            ++readable;
+            std::set<int> mine;
+            uint64_t total = 0;
+            const char *verdict = "ok";
+            int slice = anchor->start;
+            int steps = 0;
+            while (slice >= 0) {
+                if (slice >= sliceLimit) { verdict = "slice-out-of-range"; break; }
+                if (mine.count(slice)) { verdict = "cycle"; break; }
+                if (used.count(slice)) { verdict = "slice-shared-with-other-entry"; break; }
+                mine.insert(slice);
+                const auto &s = map.readableSlice(fileno, slice);
+                total += s.size;
+                slice = s.next;
+                if (++steps > sliceLimit) { verdict = "cycle"; break; }
+            }
+            const uint64_t want = anchor->basics.swap_file_sz;
+            if (!strcmp(verdict, "ok") && total != want)
+                verdict = "size-mismatch";
+            used.insert(mine.begin(), mine.end());
+            if (strcmp(verdict, "ok"))
+                ++bad;
+            vsim::hist("ROCKWALK\t%s\tentry\t%d\t%d\t%zu\t%llu\t%llu\t%s", label, (int)i, fileno, mine.size(), (unsigned long long)total, (unsigned long long)want, verdict);
+            map.closeForReading(fileno);
+        }
+        vsim::hist("ROCKWALK\t%s\tdir\t%d\t%d\t%d\t%d", label, (int)i, limit, readable, bad);
+    }
+}
